@@ -278,6 +278,18 @@ func ruleRevisionSelection(c *Ctx, r4, r7 string) {
 						member = true
 					}
 				}
+				// the standard library's membership test: slices.Contains(list, rev)
+				if g := staticCallee(call); g != nil && len(call.Call.Args) == 2 {
+					gp := g
+					if gp.Origin() != nil {
+						gp = gp.Origin()
+					}
+					if gp.Pkg != nil && gp.Pkg.Pkg.Path() == "slices" && gp.Name() == "Contains" && call.Call.Args[1] == st.Val {
+						if sc, ok := origin(call.Call.Args[0]).(*ssa.Call); ok && w.isRoleCall(sc, "supportedRevisions") {
+							member = true
+						}
+					}
+				}
 			}
 		}
 		for _, f := range factsAt(st) {
@@ -295,7 +307,7 @@ func ruleRevisionSelection(c *Ctx, r4, r7 string) {
 		ok := false
 		if u, isU := st.Val.(*ssa.UnOp); isU {
 			if ia, isIA := u.X.(*ssa.IndexAddr); isIA {
-				src := ia.X
+				src := origin(ia.X) // the list may have been handed to a private helper
 				// C11.7
 				phi, isPhi := src.(*ssa.Phi)
 				adv := false
@@ -344,6 +356,19 @@ func ruleRevisionSelection(c *Ctx, r4, r7 string) {
 			if phi, ok := f.V.(*ssa.Phi); ok && !f.True && inLoopPhi(phi) {
 				supPhi = phi
 			}
+			// the flag returned by the private helper that holds the selection loop
+			if hc, ok := f.V.(*ssa.Call); ok && !f.True {
+				if leaves, _, isH := returnLeavesOfCall(hc); isH {
+					if h := helperCallee(hc); h != nil {
+						forEachReturnValue(h, 0, func(rv ssa.Value, at ssa.Instruction) {
+							if phi, isPhi := rv.(*ssa.Phi); isPhi && inLoopPhi(phi) {
+								supPhi = phi
+							}
+						})
+					}
+					_ = leaves
+				}
+			}
 		}
 		// the prologue may return its errors to the loop function, which closes: the facts at each such return
 		for _, vc := range valueCases(call.Common().Args[1], 0) {
@@ -371,6 +396,15 @@ func ruleRevisionSelection(c *Ctx, r4, r7 string) {
 				if call, ok := f.V.(*ssa.Call); ok && f.True {
 					if w.isRoleCall(call, "inSlice") {
 						member = true
+					}
+					if g := staticCallee(call); g != nil {
+						gp := g
+						if gp.Origin() != nil {
+							gp = gp.Origin()
+						}
+						if gp.Pkg != nil && gp.Pkg.Pkg.Path() == "slices" && gp.Name() == "Contains" {
+							member = true
+						}
 					}
 				}
 			}
@@ -684,12 +718,26 @@ func rulePick(c *Ctx, rule string) {
 			continue
 		}
 		okU := false
-		forEachReturnValue(m, m.Signature.Results().Len()-1, func(v ssa.Value, at ssa.Instruction) {
-			if call, ok := stripConv(v).(*ssa.Call); ok && strings.HasPrefix(calleeName(call), "google.golang.org/grpc/status.") {
-				if k, isK := constInt(call.Call.Args[0]); isK && k == 14 {
-					for _, f := range factsAt(at) {
-						if _, op, y, ok := cmpFact(f); ok && op == token.EQL && isNilConst(y) {
-							okU = true
+		forEachReturnValue(m, m.Signature.Results().Len()-1, func(rv ssa.Value, at ssa.Instruction) {
+			// directly, or as the error of a helper shared by Invoke and NewStream that picks the tunnel
+			cases := []valueCase{{rv, nil}}
+			if leaves, h, isCall := returnLeavesOfCall(stripConv(rv)); isCall {
+				cases = nil
+				idx := h.Signature.Results().Len() - 1
+				allInstrsLocal(h, func(in ssa.Instruction) {
+					if ret, isR := in.(*ssa.Return); isR && idx < len(ret.Results) {
+						cases = append(cases, valueCase{ret.Results[idx], factsAt(ret)})
+					}
+				})
+				_ = leaves
+			}
+			for _, vc := range cases {
+				if call, ok := stripConv(vc.Val).(*ssa.Call); ok && strings.HasPrefix(calleeName(call), "google.golang.org/grpc/status.") {
+					if k, isK := constInt(call.Call.Args[0]); isK && k == 14 {
+						for _, f := range append(append([]EdgeFact{}, vc.Facts...), factsAt(at)...) {
+							if _, op, y, ok := cmpFact(f); ok && op == token.EQL && isNilConst(y) {
+								okU = true
+							}
 						}
 					}
 				}
@@ -738,11 +786,32 @@ func rulePick(c *Ctx, rule string) {
 				}
 				return
 			}
-			if !call.Call.IsInvoke() && staticCallee(call) == nil {
+			isPick := func(ci *ssa.Call) bool {
+				if ci.Call.IsInvoke() || staticCallee(ci) != nil {
+					return false
+				}
+				_, _, isF := loadedField(ci.Call.Value)
+				return isF && ci.Call.Signature().Params().Len() == 0 && ci.Call.Signature().Results().Len() == 1
+			}
+			if isPick(call) {
 				// dynamic call of the pick function field
-				if fr, _, isF := loadedField(call.Call.Value); isF && call.Call.Signature().Params().Len() == 0 && call.Call.Signature().Results().Len() == 1 {
-					_ = fr
-					nPick++
+				nPick++
+				if inLoop(call.Block()) {
+					looped = true
+				}
+			} else if h := helperCallee(call); h != nil {
+				// a helper (shared by Invoke and NewStream) that makes the pick
+				n := 0
+				allInstrsLocal(h, func(x ssa.Instruction) {
+					if hc, isC := x.(*ssa.Call); isC && isPick(hc) {
+						n++
+						if inLoop(hc.Block()) {
+							looped = true
+						}
+					}
+				})
+				if n > 0 {
+					nPick += n
 					if inLoop(call.Block()) {
 						looped = true
 					}
@@ -830,13 +899,15 @@ func ruleLatch(c *Ctx, rule string) {
 	c.check(okRm, rule, "remove: latch re-armed exactly when the last tunnel leaves", posOf(w, rm), "delete; if len(chans) == 0 { avail = make(chan) }", "the latch is not re-made exactly when the registry becomes empty (after the delete, under the mutex): Ready/WaitForReady would keep reporting ready with no tunnel, or a later add would close a closed channel")
 	// remove deletes exactly the matching entry and returns its key
 	okDel := false
-	allInstrs(rm, func(in ssa.Instruction) {
-		if b, ok := in.(*ssa.BinOp); ok && b.Op == token.EQL {
-			if _, ch := fieldChain(b.X); len(ch) == 1 && origin(b.Y) == ssa.Value(rm.Params[1]) {
-				okDel = true
+	for _, scan := range append([]*ssa.Function{rm}, rm.AnonFuncs...) { // incl. a predicate literal given to slices.IndexFunc
+		allInstrs(scan, func(in ssa.Instruction) {
+			if b, ok := in.(*ssa.BinOp); ok && b.Op == token.EQL {
+				if _, ch := fieldChain(b.X); len(ch) == 1 && origin(b.Y) == ssa.Value(rm.Params[1]) {
+					okDel = true
+				}
 			}
-		}
-	})
+		})
+	}
 	c.check(okDel, rule, "remove: matches the entry by channel identity", posOf(w, rm), "chans[i].ch == ch", "remove does not select the entry whose channel is the one given")
 	// waitForReady
 	var sel *ssa.Select
